@@ -44,6 +44,8 @@ func isInfra(err error) bool { var ie *infraError; return errors.As(err, &ie) }
 //	/up/sibling/sfile                file
 //	/up/sibling/hid-c18-outside-e03b7d5a1f92  file, never named by the client
 //	/up/sibling/sdir/deep            file
+//	/up/export-private/{pfile, hid-c18-outside-7a1c0e95b2d4}
+//	/up/export2/x, /up/export.bak/b  neighbours whose names extend the root's name
 //	/up/export/                      the exported root (Ufs.Root = /up/export)
 const (
 	upName     = "up"
@@ -73,6 +75,15 @@ var outsideLayout = []outsideObj{
 	{upName + "/sibling/" + silentPrefix + "e03b7d5a1f92", 'f', ""},
 	{upName + "/sibling/sdir", 'd', ""},
 	{upName + "/sibling/sdir/deep", 'f', ""},
+	// neighbours whose names extend the root's own name: a confinement test
+	// that compares path strings by prefix takes them for part of the root
+	{upName + "/" + exportName + "-private", 'd', ""},
+	{upName + "/" + exportName + "-private/pfile", 'f', ""},
+	{upName + "/" + exportName + "-private/" + silentPrefix + "7a1c0e95b2d4", 'f', ""},
+	{upName + "/" + exportName + "2", 'd', ""},
+	{upName + "/" + exportName + "2/x", 'f', ""},
+	{upName + "/" + exportName + ".bak", 'd', ""},
+	{upName + "/" + exportName + ".bak/b", 'f', ""},
 }
 
 // canaryContent is unique per object, seed and shard (pseudo-random, so that a
